@@ -36,6 +36,7 @@ def declare(rep):
     rep.rule("R09.1", "get_spm*: projection of the first valued node of the covering chain; None iff none and the end is certified")
     rep.rule("R09.2", "cover*: i-th next() = i-th valued node of the chain, then None (and stays None)")
     rep.rule("R09.3", "no effect on the map")
+    rep.rule("R09.4", "(shared with C02) get_lpm* return the last element of the cover sequence: the deepest valued chain node")
 
 
 def cover_program(F, ctor, nxt, calls):
@@ -151,6 +152,10 @@ def run_config(ctx, rep, cfg, F):
             if any(e.kind in ("value_write", "link_write", "prefix_write", "count") for e in p.events):
                 rep.bad("R09.3", ctor, "mutates", "%s changes the map" % ctor, config=cfg)
     rep.floor("spm / cover paths checked (%s)" % cfg, n, 4000)
+    # "longest-prefix match returns the last element of the cover sequence": the LPM rule of C02, shared
+    from .. import engine
+    from . import c02
+    c02.run_config(ctx, engine.Renamed(rep, lambda r: "R09.4" if r.startswith("R02") else r), cfg, F)
 
 
 def finalize(ctx, rep):
